@@ -160,6 +160,7 @@ pub const SNIPPETS: &[&str] = &[
     "PRINT RND(-1);RND(1)", "A$=INKEY$", "PRINT DATE$;TIME$", "PRINT 1/0;1\\0", "PRINT 32767+1", "A%=40000", "PRINT \"A\"+1", "PRINT -(-32767-1)", "PRINT 2^15;2^-1;2^.5",
     "PRINT \"日本語é😀\"", "A$=\"ßΩ\"", "PRINT \"é\":GOTO 20", "IF A$<>\"é\" THEN 20 ELSE 10", "PRINT \"😀\";:ON A GOSUB 100,200", "A$=\"日\":RESTORE 20", "MID$(A$,2)=\"é😀\"",
     "INPUT \"é\";A$,B$", "B$=\"本\":GOSUB 100", "PRINT \"Ω\":RUN 20", "IF A$=\"日本\" GOTO 10",
+    "A%=-32767-1:PRINT A% MOD -1", "A%=-32767-1:PRINT A%\\-1", "PRINT (-32767-1) MOD -1;-32768! MOD -1#;-32768.5 MOD -.5", "PRINT 32767 MOD .5;5 MOD 0;5\\0;2^15;(-2)^15",
     "PRINT VAL(\"21.5°C\");VAL(\"€\");VAL(\"1é\")", "PRINT ASC(\"é\");LEN(\"日本\");INSTR(\"aébé\",\"b\")", "PRINT LEFT$(\"日本語\",1);RIGHT$(\"日本語\",1);MID$(\"日本語\",2,1)",
     "FOR I=1 TO 140:PRINT STRING$(250,65);:NEXT", "PRINT TAB(5);1;TAB(200);POS(0),2", "PRINT SPC(250);SPC(250);SPC(250);",
     "A$=STRING$(200,\"é\"):A$=A$+A$", "GOSUB 10", "FOR I=1 TO 1E30", "WHILE 1", "GOTO 10:REM loop", "A=A+1:IF A<1000 THEN 10",
